@@ -277,6 +277,9 @@ static void battery(hwloc_topology_t t, const struct model *m)
   }
   query(t, m, 3, 0, "a", 0); query(t, m, 3, 0, "b", 0); query(t, m, 3, 0, "zz", 0); query(t, m, 3, 0, "NUMALatency", 0);
   for (int i = 0; i < m->n; i++) if (m->d[i].n <= 4) transforms(t, &m->d[i]);
+  /* observer: the same structures must be seen through a duplicate of this state (the duplicate refreshes every
+   * structure once more, which brings what a later dup/refresh would do into the current depth) */
+  { hwloc_topology_t d = NULL; if (hwloc_topology_dup(&d, t) == 0) { query(d, m, 0, 0, NULL, 0); query(d, m, 3, 0, "a", 0); query(d, m, 3, 0, "b", 0); hwloc_topology_destroy(d); } else mc_violation("c13.dup.fails", "%s :: observer dup fails", mc_case_text()); }
 }
 
 /* transforms on fresh copies of one stored structure */
